@@ -8,6 +8,7 @@ From P Require Import Comb Obj Fields Sections.
 Import ListNotations.
 Open Scope string_scope.
 
+Definition is_ok {A} (r : res A) : bool := match r with Ok _ => true | Raise _ => false end.
 Ltac inv_bind H :=
   match type of H with
   | bind ?x _ = Ok _ => let E := fresh "E" in destruct x eqn:E; cbn [bind] in H; [|discriminate H]
